@@ -1462,9 +1462,9 @@ def c08_model_configs(tier):
                        out_decode_for(ver, role), [None], 800 if tier == "quick" else 8000))
             cs.append((f"m_v{ver}{role[0]}_strm", OUT_CFG.format(ver=ver, role=role, toks="TStream", n=4 if tier == "quick" else 5), "MC_Out",
                        out_decode_for(ver, role), [None], 800 if tier == "quick" else 8000))
-            cs.append((f"m_v{ver}{role[0]}_empty", OUT_CFG.format(ver=ver, role=role, toks="TEmpty", n=4), "MC_Out",
+            cs.append((f"m_v{ver}{role[0]}_empty", OUT_CFG.format(ver=ver, role=role, toks="TEmpty", n=3 if tier == "quick" else 4), "MC_Out",
                        out_decode_for(ver, role), [None], 800 if tier == "quick" else 8000))
-            cs.append((f"m_v{ver}{role[0]}_nb", OUT_CFG.format(ver=ver, role=role, toks="TNb", n=4), "MC_Out",
+            cs.append((f"m_v{ver}{role[0]}_nb", OUT_CFG.format(ver=ver, role=role, toks="TNb", n=3 if tier == "quick" else 4), "MC_Out",
                        out_decode_for(ver, role, nb=True), [None], 800 if tier == "quick" else 8000))
             cs.append((f"m_v{ver}{role[0]}_resp", OUT_CFG.format(ver=ver, role=role, toks="TResp", n=4 if tier == "quick" else 5), "MC_Out",
                        out_decode_for(ver, role), [None], 800 if tier == "quick" else 8000))
